@@ -19,7 +19,9 @@ EXPLANATION = (
     "initialiser and inside the same loop nest as the call (so an unassigned k[i] is exactly 0 for every system); R3 k[]/kh[]/kc[] are "
     "assigned nowhere else in the templates; the rate functions paste ode.rateeqns/hrateeqns/crateeqns once, unfiltered; R4 KROME window "
     "tokens: every operator token is stripped before float(), d->e, the no-bound spellings keep the default -1, tmin/tmax feed temp_min/"
-    "temp_max respectively; UCLCHEM FREEZE forces the window (0, 30).")
+    "temp_max respectively; UCLCHEM FREEZE forces the window (0, 30) -- all parsers are read in their folded form (pymodel.folded: helpers put back, class-level "
+    "tables in place, table-driven setattr dispatch resolved); R5 the default duplicate search compares the reactions themselves (window included); "
+    "R6 every reaction of the list contributes its terms to the equations unconditionally (shared with C01.R2/R3).")
 ASSUMPTIONS = [
     "evaluation at boundary temperatures follows from the C operators >= and < once the guard text is as stated",
     "whether a database's `.LE.` should have been inclusive is not decided",
